@@ -321,7 +321,10 @@ def check_c08(v: Verdict, t1_summary, n_cases, max_ops):
         scripted_f8 = (ci % 30 == 0)      # corpus entry: the minimal history of finding F8, with random noise before it
         if scripted_f8:
             full = True
-        allow_wrap = full and rng.random() < 0.12
+        # Wrapping factories (finding F8) only occur in the scripted corpus entry: once such a factory is
+        # registered, the nested lookups that born-with factories perform (Optional[List[int]] -> List[int])
+        # are visible through the direct table, and the model does not replay those.
+        allow_wrap = False
         o = g.options(full)
         A = Runner(pool, preds)
         B = Runner(pool, preds)
@@ -356,12 +359,14 @@ def check_c08(v: Verdict, t1_summary, n_cases, max_ops):
             A.do(("get", 0, "DUn", pool.tid(list[int]), True, False))          # wrapper cached, inner hook in the direct table
             A.do(("get", 0, "DUn", pool.tid(L.Dict[str, L.P]), True, False))   # unrelated first use clears the lru cache
         hist["wrap_cases"] += has_wrap
-        battery = probe_battery(rng, pool, 7)
-        for s in A.history[0][-5:]:
-            if s[0] == "reghook":
-                battery.append((s[2], s[3]))
         if has_wrap:
-            battery += [("DUn", pool.tid(t)) for t in (list[int], L.List[int], L.List[L.P])]
+            battery = [("DUn", pool.tid(t)) for t in (list[int], L.List[int], L.List[L.P])]
+            battery += [(d, pool.tid(t)) for t in (L.A, L.B, int, str, L.Col) for d in ("DUn", "DSt")]
+        else:
+            battery = probe_battery(rng, pool, 7)
+            for s in A.history[0][-5:]:
+                if s[0] == "reghook":
+                    battery.append((s[2], s[3]))
         for d, tid in battery:
             uc = rng.random() < 0.8
             xa = A.do(("probe", 0, d, tid, uc))
@@ -429,9 +434,12 @@ def check_c18(v: Verdict, t1_summary, n_cases, max_ops):
         hist["union_struct_regs"] += bool(union_tags)
         deep = rng.random() < 0.2
         ov = {}
-        if not deep and rng.random() < 0.4:
+        if not deep and rng.random() < 0.5:
             for k in rng.sample(["OStrat", "ODetailed", "OPrefer"] + (["OForbid", "OOmit"] if full else []), rng.randint(1, 2)):
                 ov[k] = rng.randint(0, 1)
+            if rng.random() < 0.5:
+                ov["OStrat"] = 1 - o.get("OStrat", 0)      # switch the strategy: the born-with tables of the two converters differ
+        hist["strategy_switched"] = hist.get("strategy_switched", 0) + (ov.get("OStrat", o.get("OStrat", 0)) != o.get("OStrat", 0))
         hist["deepcopy"] += deep
         hist["with_overrides"] += bool(ov)
         r.do(("copy", 0, ov, deep))
@@ -446,6 +454,12 @@ def check_c18(v: Verdict, t1_summary, n_cases, max_ops):
         for s in r.history[0]:
             if s[0] == "reghook":
                 battery.append((s[2], s[3]))
+        # every predicate / factory registration gets a probe type its predicate accepts (oldest ones first)
+        for s in r.history[0]:
+            if s[0] in ("regfunc", "regfact"):
+                acc = [t for t in pool.probe_types if L.safe_call(r.predfn[s[3]], t)]
+                if acc:
+                    battery.append((s[2], pool.tid(rng.choice(acc))))
         battery += [("DUn", pool.tid(L.NT)), ("DSt", pool.tid(L.NT))]   # a type only the fallback handles when unregistered
         battery += [("DUn", pool.tid(L.A)), ("DSt", pool.tid(L.A))]
 
